@@ -292,6 +292,13 @@ void janet_async_in_flight(JanetFiber *fiber) {
 
 void janet_async_start_fiber(JanetFiber *fiber, JanetStream *stream, JanetAsyncMode mode, JanetEVCallback callback, void *state) {
     janet_assert(!fiber->ev_callback, "double async on fiber");
+    /* A stream has one slot per direction. Overwriting the slot of a fiber that
+     * is still waiting would leave that fiber suspended for ever. */
+    if (((mode & JANET_ASYNC_LISTEN_READ) && stream->read_fiber && stream->read_fiber != fiber) ||
+            ((mode & JANET_ASYNC_LISTEN_WRITE) && stream->write_fiber && stream->write_fiber != fiber)) {
+        janet_free(state);
+        janet_panic("stream is already in use by another fiber");
+    }
     if (mode & JANET_ASYNC_LISTEN_READ) {
         stream->read_fiber = fiber;
     }
